@@ -1,14 +1,39 @@
 """C02 -- validation is exact on well-typed values and agrees with isinstance"""
+import re
+from decimal import Decimal
+from enum import Enum
+
 from utype import Rule, exc
+from utype.parser.rule import Constraints
 from vt.ob import ob
-from vt.h import attempt, kind, isinst, declare
+from vt.h import attempt, isinst, declare
 
 PROP = 'C02'
+ASSUMPTIONS = [
+    "'well-typed' is read as type(x) is the source type (bool inputs to int rules are conversions: C01/C12)",
+    'digits obligation: Decimal.as_tuple() is replaced by its documented contract (sign, digit tuple, exponent) with '
+    'solver-chosen digit count and exponent; the real Decimal arithmetic is exercised by picked literals only',
+]
 
 
+def verdicts(V, T, x, expect, tag, detail=None, same_type=True):
+    """common assertions: accept <=> expect, result == input (same type), isinstance agrees"""
+    r = attempt(T, x)
+    V.check(r[0] != 'crash', 'crash:' + tag, lambda: repr(r[1]))
+    ok = r[0] == 'ok'
+    d = detail or (lambda: 'x=%r accepted=%r expected=%r' % (x, ok, expect))
+    V.check(ok == expect, 'verdict:' + tag, d)
+    if ok:
+        V.check(r[1] == x and (not same_type or type(r[1]) is type(x)), 'altered:' + tag,
+                lambda: '%r -> %r' % (x, r[1]))
+    V.check(isinst(T, x) == expect, 'isinstance:' + tag, d)
+    V.cover('accept' if ok else 'reject')
+
+
+# ------------------------------------------------------------------ (a) integer bounds
 @ob('int-bounds', marks=['accept', 'reject', 'refused-declaration'],
-    bounds='gt/ge x lt/le (9 kind combinations), a, b, x unbounded symbolic ints',
-    out='bounds on non-int comparables')
+    bounds='gt/ge x lt/le (9 kind combinations); a, b, x unbounded symbolic ints',
+    out='bounds on non-numeric comparables (dates, strings)')
 def int_bounds(V):
     lo = V.pick('lo', [None, 'gt', 'ge'])
     hi = V.pick('hi', [None, 'lt', 'le'])
@@ -31,11 +56,381 @@ def int_bounds(V):
         expect = False
     if hi == 'le' and not x <= b:
         expect = False
+    verdicts(V, T, x, expect, '%s%s' % (lo, hi), lambda: 'cons=%r x=%r' % (cons, x))
+
+
+# ------------------------------------------------------------------ (b) float bounds incl. nan/inf
+@ob('float-bounds', marks=['accept', 'reject'], budget=(60, 200),
+    bounds='one of gt/ge/lt/le with a bound picked from {0.0, -1.5, 2.25}; x = CrossHair float '
+           '({nan, +inf, -inf} U reals; rounding not modelled)', exhaustive=False,
+    out='IEEE rounding; two-sided float bounds')
+def float_bounds(V):
+    k = V.pick('k', ['gt', 'ge', 'lt', 'le'])
+    a = V.pick('a', [0.0, -1.5, 2.25])
+    x = V.float('x')
+    T = Rule.annotate(float, constraints={k: a})
+    if k == 'gt':
+        expect = x > a
+    elif k == 'ge':
+        expect = x >= a
+    elif k == 'lt':
+        expect = x < a
+    else:
+        expect = x <= a
+    expect = True if expect else False
     r = attempt(T, x)
-    V.check(r[0] != 'crash', 'crash', lambda: repr(r[1]))
+    V.check(r[0] != 'crash', 'crash:float', lambda: repr(r[1]))
     ok = r[0] == 'ok'
-    V.check(ok == expect, 'verdict:%s%s' % (lo, hi), lambda: 'cons=%r x=%r accepted=%r' % (cons, x, ok))
+    isnan = x != x
+    V.check(ok == expect, 'verdict:float:' + ('nan' if isnan else k), lambda: '%s=%r x=%r accepted=%r' % (k, a, x, ok))
+    V.check(isinst(T, x) == expect, 'isinstance:float:' + k, lambda: '%s=%r x=%r' % (k, a, x))
+    V.cover('accept' if ok else 'reject')
+
+
+# ------------------------------------------------------------------ (c) length constraints
+def _sized(V, kind, ln):
+    if kind == 'str':
+        return 'abcdefg'[:ln]
+    if kind == 'list':
+        return [1, 2, 3, 4, 5, 6, 7][:ln]
+    if kind == 'tuple':
+        return (1, 2, 3, 4, 5, 6, 7)[:ln]
+    return dict([(1, 1), (2, 2), (3, 3), (4, 4), (5, 5), (6, 6), (7, 7)][:ln])
+
+
+def _mk_length_ob(kind):
+    origin = {'str': str, 'list': list, 'tuple': tuple, 'dict': dict}[kind]
+
+    def h(V):
+        cons = {}
+        n = {}
+        for name in ('length', 'min_length', 'max_length'):
+            if V.bool('has_' + name):
+                n[name] = V.int('n_' + name, -1, 5)
+                cons[name] = n[name]
+        if not cons:
+            return
+        ln = V.int('ln', 0, 5)
+        # make the structure concrete by explicit forks, keep the relation to the limits symbolic
+        size = 0
+        while size < 5 and not (ln == size):
+            size += 1
+        x = _sized(V, kind, size)
+        T = declare(Rule.annotate, origin, constraints=cons)
+        if T is None:
+            V.cover('refused-declaration')
+            return
+        expect = True
+        if 'length' in n and not ln == n['length']:
+            expect = False
+        if 'min_length' in n and not ln >= n['min_length']:
+            expect = False
+        if 'max_length' in n and not ln <= n['max_length']:
+            expect = False
+        verdicts(V, T, x, expect, 'length', lambda: 'cons=%r len=%r' % (cons, size))
+    return h
+
+
+for _k in ('str', 'list', 'tuple', 'dict'):
+    ob('length/' + _k, marks=['accept', 'reject', 'refused-declaration'], budget=(90, 200),
+       bounds='every subset of {length, min_length, max_length} with symbolic limits in -1..5 (incl. the '
+              'legality rules); %s values of symbolic length 0..5' % _k,
+       out='lengths > 5; objects without __len__ (converted to str by the library)')(_mk_length_ob(_k))
+
+
+@ob('length-symbolic-str', marks=['accept', 'reject'],
+    bounds='max_length / min_length / length with symbolic limit 1..4 on a symbolic string of length <= 4 '
+           '(symbolic code points)')
+def length_symstr(V):
+    name = V.pick('name', ['length', 'min_length', 'max_length'])
+    n = V.int('n', 1, 4)
+    s = V.str('s', 4)
+    T = declare(Rule.annotate, str, constraints={name: n})
+    if T is None:
+        return
+    ln = len(s)
+    expect = (ln == n) if name == 'length' else (ln >= n) if name == 'min_length' else (ln <= n)
+    verdicts(V, T, s, True if expect else False, 'length-str', lambda: '%s=%r s=%r' % (name, n, s))
+
+
+# ------------------------------------------------------------------ (d) regex: full match
+PATTERNS = ['[a-c]+', r'\d{2,3}', 'a|bc', '(ab)*c?', 'a.c', '[^a]b']
+
+
+def _mk_regex_ob(pat):
+    def h(V):
+        s = V.str('s', V.T(4, 5), lo=48, hi=100)   # '0'..'d' : digits, some punctuation, upper case, a-d
+        T = Rule.annotate(str, constraints={'regex': pat})
+        expect = re.fullmatch(pat, s) is not None
+        if not expect and re.match(pat, s) is not None:
+            V.cover('prefix-match-only')
+        verdicts(V, T, s, expect, 'regex', lambda: 'pattern=%r s=%r' % (pat, s))
+    return h
+
+
+for _i, _p in enumerate(PATTERNS):
+    ob('regex/%d' % _i, marks=['accept', 'reject', 'prefix-match-only'], budget=(60, 240), per_path=(15, 30),
+       bounds='pattern %r, symbolic strings of length <= 4 (thorough 5) over code points 48..100' % _p,
+       out='other patterns; longer strings; code points outside 48..100')(_mk_regex_ob(_p))
+
+
+# ------------------------------------------------------------------ (e) const: type-exact equality
+class Color(Enum):
+    RED = 1
+    BLUE = 2
+
+
+CONSTS = [0, 1, -1, True, False, 1.0, 0.0, 'a', '', '1', None, Decimal(1), (1,), b'a']
+
+
+NUMERIC = (int, float, Decimal)
+
+
+@ob('const', marks=['accept', 'reject'], budget=(60, 150),
+    bounds='const picked from 14 literals of 9 types; untyped Rule (direct comparison) and Rule typed with '
+           'type(const); x = unbounded symbolic int (against int/bool consts) | bool | picked literal. '
+           'Reference: reject if x != const; accept if equal and same type; equal values of two different '
+           'non-bool numeric types are left open (the tolerance table is not documented)',
+    out='consts with user-defined __eq__')
+def const(V):
+    c = V.pick('c', CONSTS)
+    typed = V.bool('typed')
+    xk = V.pick('xk', ['int', 'bool', 'lit'])
+    if xk == 'int':
+        if type(c) not in (int, bool):
+            return
+        x = V.int('x')
+    elif xk == 'bool':
+        x = V.bool('xb')
+    else:
+        x = V.pick('xl', CONSTS)
+    if typed:
+        if c is None:
+            return
+        T = declare(Rule.annotate, type(c), constraints={'const': c})
+        if T is None:
+            return
+        if type(x) is not type(c):
+            return   # not well-typed: conversion comes first (C01/C12)
+    else:
+        T = declare(Rule.annotate, None, constraints={'const': c})
+        if T is None:
+            return
+    equal = True if x == c else False
+    same = type(x) is type(c)
+    r = attempt(T, x)
+    V.check(r[0] != 'crash', 'crash:const', lambda: repr(r[1]))
+    ok = r[0] == 'ok'
+    d = lambda: 'const=%r (%s) x=%r (%s) typed=%r accepted=%r' % (
+        c, type(c).__name__, x, type(x).__name__, typed, ok)
+    if not equal:
+        V.check(not ok, 'verdict:const:unequal-accepted', d)
+    elif same:
+        V.check(ok, 'verdict:const:equal-rejected', d)
+    elif not (type(x) in NUMERIC and type(c) in NUMERIC):
+        V.check(not ok, 'verdict:const:type-inexact-accepted', d)
     if ok:
-        V.check(r[1] == x and type(r[1]) is int, 'altered', lambda: '%r -> %r' % (x, r[1]))
-    V.check(isinst(T, x) == expect, 'isinstance:%s%s' % (lo, hi), lambda: 'cons=%r x=%r' % (cons, x))
+        V.check(r[1] == x, 'altered:const', lambda: '%r -> %r' % (x, r[1]))
+    if typed:
+        V.check(isinst(T, x) == ok, 'isinstance:const', d)
+    V.cover('accept' if ok else 'reject')
+
+
+# ------------------------------------------------------------------ (f) enum membership
+@ob('enum/list', marks=['accept', 'reject'],
+    bounds='enum given as a list of 1..2 (thorough 3) unbounded symbolic ints; x unbounded symbolic int')
+def enum_list(V):
+    x = V.int('x')
+    n = V.pick('n', [1, 2] + ([3] if V.thorough else []))
+    vals = [V.int('e%d' % i) for i in range(n)]
+    T = Rule.annotate(int, constraints={'enum': list(vals)})
+    expect = False
+    for v in vals:
+        if x == v:
+            expect = True
+    verdicts(V, T, x, expect, 'enum')
+
+
+@ob('enum/class', marks=['accept', 'reject'],
+    bounds='enum given as an Enum class with values {1, 2}; x symbolic int in -3..6 (the enum module formats '
+           'repr(x) into its error message, which enumerates digits: range kept small)',
+    out='x outside -3..6 for Enum-class enums')
+def enum_class(V):
+    x = V.int('x', -3, 6)
+    T = Rule.annotate(int, constraints={'enum': Color})
+    expect = True if (x == 1 or x == 2) else False
+    verdicts(V, T, x, expect, 'enum-class')
+
+
+# ------------------------------------------------------------------ (g) multiple_of
+@ob('multiple-of', marks=['accept', 'reject'],
+    bounds='x unbounded symbolic int; divisor picked from {1,2,3,5,10,-2,-3, 7, 100}',
+    out='symbolic divisors (non-linear), float divisors')
+def multiple_of(V):
+    d = V.pick('d', [1, 2, 3, 5, 10, -2, -3, 7, 100])
+    x = V.int('x')
+    T = declare(Rule.annotate, int, constraints={'multiple_of': d})
+    if T is None:
+        return
+    expect = True if x % d == 0 else False
+    verdicts(V, T, x, expect, 'multiple_of', lambda: 'multiple_of=%r x=%r' % (d, x))
+
+
+# ------------------------------------------------------------------ (h) unique_items
+@ob('unique-items', marks=['accept', 'reject'],
+    bounds='list / tuple of 0..3 (thorough 4) unbounded symbolic ints')
+def unique_items(V):
+    kind = V.pick('kind', [list, tuple])
+    n = V.pick('n', list(range(0, V.T(3, 4) + 1)))
+    items = [V.int('i%d' % i) for i in range(n)]
+    x = kind(items)
+    T = Rule.annotate(kind, constraints={'unique_items': True})
+    expect = True
+    for i in range(n):
+        for j in range(i + 1, n):
+            if items[i] == items[j]:
+                expect = False
+    verdicts(V, T, x, expect, 'unique_items')
+
+
+# ------------------------------------------------------------------ (i) contains / min_contains / max_contains
+@ob('contains', marks=['accept', 'reject', 'refused-declaration'],
+    bounds='contains=Rule[int](ge=a), a symbolic; optional min_contains / max_contains in 0..3; list of 0..2 '
+           '(thorough 3) unbounded symbolic ints', budget=(60, 240))
+def contains(V):
+    a = V.int('a')
+    Elem = Rule.annotate(int, constraints={'ge': a})
+    cons = {'contains': Elem}
+    mn = mx = None
+    if V.bool('has_min'):
+        mn = V.pick('min', [0, 1, 2, 3])
+        cons['min_contains'] = mn
+    if V.bool('has_max'):
+        mx = V.pick('max', [0, 1, 2, 3])
+        cons['max_contains'] = mx
+    n = V.pick('n', [0, 1, 2] + ([3] if V.thorough else []))
+    items = [V.int('i%d' % i) for i in range(n)]
+    T = declare(Rule.annotate, list, constraints=cons)
+    if T is None:
+        V.cover('refused-declaration')
+        return
+    cnt = 0
+    for it in items:
+        if it >= a:
+            cnt += 1
+    # documented: at least one match; min/max bound the number of matches
+    expect = cnt >= 1
+    if mn is not None and cnt < mn:
+        expect = False
+    if mx is not None and cnt > mx:
+        expect = False
+    verdicts(V, T, list(items), expect, 'contains', lambda: 'cons=%r items=%r matches=%r' % (
+        {k: v for k, v in cons.items() if k != 'contains'}, items, cnt))
+
+
+# ------------------------------------------------------------------ (j) digit counting
+class _FakeTuple(tuple):
+    pass
+
+
+def _mk_decimal(sign, digits, exponent):
+    """a real Decimal subclass whose as_tuple() returns solver-chosen components"""
+    class D(Decimal):
+        def as_tuple(self):
+            return (sign, digits, exponent)
+
+        def __round__(self, n=None):      # stub: the rounded value is not inspected by this obligation
+            return self
+    return D(0)
+
+
+@ob('digits-unit', marks=['accept', 'reject', 'special'], budget=(90, 200),
+    bounds='Constraints.max_digits / decimal_places driven with as_tuple() = (sign, n digits, exponent): '
+           'n in 1..6, exponent in -6..6 or one of F/n/N, limit in 0..10 (all symbolic)',
+    out='Decimal arithmetic itself (as_tuple is a contract stub); float inputs (str(float) conversion)')
+def digits_unit(V):
+    which = V.pick('which', ['max_digits', 'decimal_places'])
+    limit = V.int('limit', 0, 10)
+    n = V.int('n', 1, 6)
+    special = V.pick('special', [None, 'F', 'n', 'N'])
+    exponent = V.int('exp', -6, 6) if special is None else special
+    size = 1
+    while size < 6 and not (n == size):
+        size += 1
+    digits = (1,) + (0,) * (size - 1)
+    d = _mk_decimal(V.pick('sign', [0, 1]), digits, exponent)
+    fn = getattr(Constraints, which)
+    try:
+        fn(d, limit)
+        ok = True
+    except ValueError:
+        ok = False
+    if special is not None:
+        V.check(not ok, 'digits:special-accepted', lambda: 'exponent=%r accepted by %s' % (special, which))
+        V.cover('special')
+        return
+    # reference, from the docs: decimals = digits after the point; max_digits counts significant digits,
+    # the integer-side 0 of 0.0123 is not counted, trailing zeros of a fixed-point value are
+    if exponent >= 0:
+        ref_digits, ref_decimals = n + exponent, 0
+    else:
+        ref_decimals = -exponent
+        ref_digits = n if n >= ref_decimals else ref_decimals
+    expect = (ref_digits <= limit) if which == 'max_digits' else (ref_decimals <= limit)
+    expect = True if expect else False
+    V.check(ok == expect, 'digits:' + which, lambda: 'digits=%r exp=%r %s=%r accepted=%r' % (
+        size, exponent, which, limit, ok))
+    V.cover('accept' if ok else 'reject')
+
+
+INT_LITS = [0, 1, 9, 10, -9, -10, 99, 100, -99, -100, 999, 1000, 99999, 100000, -99999, -100000, 999999, 1000000]
+DEC_LITS = ['0', '1', '10', '12.5', '0.5', '0.05', '100', '1E+2', '1.50', '-3.25', '123456', '0.001', '1e-7',
+            '99.99', '-0', '0.0']
+
+
+@ob('digits-literals', marks=['accept', 'reject'],
+    bounds='Rule[Decimal] / Rule[int] with max_digits 1..6 and (Decimal only) decimal_places 0..3 (symbolic), value '
+           'picked from 16 Decimal literals / 18 int literals at the digit-count boundaries -- vocabulary enumeration for Decimal, stated as such',
+    out='Decimals outside the vocabulary')
+def digits_literals(V):
+    md = V.int('max_digits', 1, 6)
+    use_int = V.bool('int')
+    if use_int:
+        x = V.pick('x', INT_LITS)
+        T = Rule.annotate(int, constraints={'max_digits': md})
+        nd = len(str(abs(x)))
+        expect = True if nd <= md else False
+        verdicts(V, T, x, expect, 'max_digits:int', lambda: 'max_digits=%r x=%r' % (md, x))
+        return
+    lit = V.pick('lit', DEC_LITS)
+    x = Decimal(lit)
+    sign, dg, ex = x.as_tuple()
+    if ex >= 0:
+        nd, ndec = len(dg) + ex, 0
+    else:
+        ndec = -ex
+        nd = max(len(dg), ndec)
+    has_dp = V.bool('has_dp')
+    cons = {'max_digits': md}
+    nd_eff = nd
+    dp_ok = True
+    if has_dp:
+        dp = V.pick('dp', [0, 1, 2, 3])
+        cons['decimal_places'] = dp
+        if ndec > dp:
+            dp_ok = False
+        else:
+            # documented: a Decimal is first completed to `decimal_places` places, then max_digits is checked
+            s2, dg2, ex2 = round(x, dp).as_tuple()
+            nd_eff = len(dg2) + ex2 if ex2 >= 0 else max(len(dg2), -ex2)
+    expect = dp_ok and (True if nd_eff <= md else False)
+    T = declare(Rule.annotate, Decimal, constraints=cons)
+    if T is None:
+        return
+    r = attempt(T, x)
+    V.check(r[0] != 'crash', 'crash:digits', lambda: repr(r[1]))
+    ok = r[0] == 'ok'
+    V.check(ok == expect, 'verdict:digits-literal', lambda: 'cons=%r x=%r accepted=%r' % (cons, x, ok))
+    if ok:
+        V.check(r[1] == x, 'altered:digits', lambda: '%r -> %r' % (x, r[1]))
     V.cover('accept' if ok else 'reject')
